@@ -48,7 +48,10 @@ def gen_case(rng, ctx):
     case = algos.gen_algo_case(rng, ctx, nmax=6 if ("C" in ctx.mode or "D" in ctx.mode) else 8)
     # plus one algorithm obtained through get_algorithm(Algorithm.X): whatever object the enumeration hands out must
     # return well-formed consensuses too
-    case["configs"] = case["configs"] + [rng.choice(ENUMS)]
+    if case.get("dcls") == "huge-component":
+        case["configs"] = case["configs"] + [rng.choice(["enum:PARCONS", "enum:BIOCONSERT", "enum:COPELANDMETHOD"])]
+    else:
+        case["configs"] = case["configs"] + [rng.choice(ENUMS)]
     return case
 
 
